@@ -165,7 +165,13 @@ func (s *selectForUpdateExecutor) doExecContext(ctx context.Context, f exec.Call
 	// query primary key values
 	var lockKey string
 	var keyErr error
-	_, err = s.exec(ctx, s.selectPKSQL, s.execContext.NamedValues, func(rows driver.Rows) {
+	// (the key query keeps the statement's WHERE, ORDER BY and LIMIT: their arguments, not those of a placeholder
+	// in the select list)
+	keyArgs := s.execContext.NamedValues
+	if stmt := s.parserCtx.SelectStmt; stmt != nil {
+		keyArgs = s.buildSelectArgs(stmt, s.execContext.NamedValues)
+	}
+	_, err = s.exec(ctx, s.selectPKSQL, keyArgs, func(rows driver.Rows) {
 		lockKey, keyErr = s.buildLockKeyChecked(rows, s.metaData)
 	})
 	if err == nil {
